@@ -1,6 +1,9 @@
 package kit
 
 import (
+	"bytes"
+	"fmt"
+	"runtime"
 	"sync"
 	"sync/atomic"
 	"time"
@@ -24,6 +27,19 @@ type RTPSink struct {
 	calls  []SentRTP
 	FailAt map[int]error // call index -> error
 	OnCall func(SentRTP) // optional, called outside the lock
+	// Hold makes every write a slow transport: after the copy taken on entry the sink yields / sleeps and then compares what
+	// the caller handed in with that copy. A writer is entitled to the header and payload for the duration of the call.
+	HoldYields int
+	HoldSleep  time.Duration
+	tampered   []string
+}
+
+// Tampered lists the writes whose header or payload changed while the sink was still inside Write.
+func (s *RTPSink) Tampered() []string {
+	s.mu.Lock()
+	defer s.mu.Unlock()
+
+	return append([]string(nil), s.tampered...)
 }
 
 // Write implements interceptor.RTPWriter.
@@ -36,6 +52,19 @@ func (s *RTPSink) Write(h *rtp.Header, p []byte, a interceptor.Attributes) (int,
 	s.mu.Unlock()
 	if s.OnCall != nil {
 		s.OnCall(rec)
+	}
+	if s.HoldYields > 0 || s.HoldSleep > 0 {
+		for i := 0; i < s.HoldYields; i++ {
+			runtime.Gosched()
+		}
+		if s.HoldSleep > 0 {
+			time.Sleep(s.HoldSleep)
+		}
+		if !bytes.Equal(p, rec.Payload) || !HeaderEqual(h, &rec.Header) {
+			s.mu.Lock()
+			s.tampered = append(s.tampered, fmt.Sprintf("write %d (ssrc %d seq %d, %d payload bytes): header or payload changed while the writer was still inside Write", idx, rec.Header.SSRC, rec.Header.SequenceNumber, len(rec.Payload)))
+			s.mu.Unlock()
+		}
 	}
 	if err != nil {
 		return 0, err
